@@ -1,5 +1,6 @@
 import Ruint.Model.Mul
 import Ruint.Gen.WordsUint
+import Ruint.Gen.WordsUintMod
 /-! Driver for C02: model = `Ruint.Mul.*` on limb lists, spec = ℕ arithmetic. -/
 open Ruint Ruint.Mul
 
@@ -33,11 +34,15 @@ def handle (args : List String) (_impl : String) : String × String :=
   | ["wide", bs, bs2, as, bs'] =>
     let bits := parseDec bs; let bits2 := parseDec bs2
     let a := u bits as; let b := u bits2 bs'
-    (out (wideningMul bits bits2 a b), toHex (parseHex as * parseHex bs'))
+    let br := bits + bits2
+    ((match Ruint.Gen.uint_widening_mul (nlimbs br + a.length + b.length + 1) bits2 (nlimbs bits2) br (nlimbs br) bits (nlimbs bits) a b with
+        | some r => out r | none => "panic"), toHex (parseHex as * parseHex bs'))
   | ["widebad", bs, bs2, bres, as, bs'] =>
     let bits := parseDec bs; let bits2 := parseDec bs2; let br := parseDec bres
     let a := u bits as; let b := u bits2 bs'
-    ((match wideningMulG bits bits2 br (nlimbs br) a b with | some r => out r | none => "panic"),
+    -- `widening_mul` GENERATED from src/mul.rs (`Props/C02.gen_widening_mul_eq`), any caller-chosen result width
+    ((match Ruint.Gen.uint_widening_mul (nlimbs br + a.length + b.length + 1) bits2 (nlimbs bits2) br (nlimbs br) bits (nlimbs bits) a b with
+        | some r => out r | none => "panic"),
      if br = bits + bits2 then toHex (parseHex as * parseHex bs') else "panic")
   | [op, bs, as, bs'] =>
     let bits := parseDec bs
